@@ -187,7 +187,18 @@ func aggSnapshot(ap *intermediate.AggregationProcess, c *aggCase, locked bool) (
 	var sb strings.Builder
 	fmt.Fprintf(&sb, "F %d", len(sn.Flows))
 	for _, f := range sn.Flows {
-		fmt.Fprintf(&sb, " %d %s %d %s %s", aggKeyID(f.Key), ShowBool(f.ReadyToSend), f.Retries, ShowBool(f.Filled), ShowBool(f.IsIPv4))
+		// orientation of the stored record: N = the template's order, R = the reverse order
+		// (records are fed in one of the two; R only when it can be told apart)
+		orient := "N"
+		if f.Record != nil && len(c.T) > 1 {
+			if els := f.Record.GetOrderedElementList(); len(els) > 0 {
+				first := els[0].GetName()
+				if first == aggFields[c.T[len(c.T)-1]] && first != aggFields[c.T[0]] {
+					orient = "R"
+				}
+			}
+		}
+		fmt.Fprintf(&sb, " %d %s %d %s %s %s", aggKeyID(f.Key), ShowBool(f.ReadyToSend), f.Retries, ShowBool(f.Filled), ShowBool(f.IsIPv4), orient)
 		for _, fi := range c.T {
 			if f.Record == nil {
 				sb.WriteString(" norecord")
@@ -266,20 +277,28 @@ func aggRunCase(t []string) string {
 					panicked = true
 				}
 			}()
+			rev := func(els []entities.InfoElementWithValue) []entities.InfoElementWithValue {
+				if op == "recr" || op == "msgr" {
+					for i, j := 0, len(els)-1; i < j; i, j = i+1, j-1 {
+						els[i], els[j] = els[j], els[i]
+					}
+				}
+				return els
+			}
 			switch op {
-			case "rec":
+			case "rec", "recr":
 				k := atoi(next())
-				if err := ap.VerifAddRecord(entities.NewDataRecordFromElements(256, mkElems(k), true)); err != nil {
+				if err := ap.VerifAddRecord(entities.NewDataRecordFromElements(256, rev(mkElems(k)), true)); err != nil {
 					return "r err", false
 				}
 				return "r ok", false
-			case "msg":
+			case "msg", "msgr":
 				k := atoi(next())
 				set := entities.NewSet(true)
 				if err := set.PrepareSet(entities.Data, 256); err != nil {
 					panic(err)
 				}
-				if err := set.AddRecordV2(mkElems(k), 256); err != nil {
+				if err := set.AddRecordV2(rev(mkElems(k)), 256); err != nil {
 					panic(err)
 				}
 				m := entities.NewMessage(true)
@@ -525,6 +544,15 @@ func aggRecVals(r *Rng, T []int, kind int) string {
 		set(3, "2")
 		set(4, "0")
 		dstSide()
+	case 9: // inter-node, every combination of the two rule actions, either side
+		set(0, "2")
+		set(3, strconv.Itoa(r.Intn(4)))
+		set(4, strconv.Itoa(r.Intn(4)))
+		if r.Bool() {
+			srcSide()
+		} else {
+			dstSide()
+		}
 	}
 	out := make([]string, len(T))
 	for i, fi := range T {
